@@ -427,7 +427,9 @@ impl<'a> OpenResponsesSsePipe<'a> {
                         if err.error_len().is_none() {
                             break;
                         }
-                        utf8_buf.remove(0);
+                        let invalid_len = err.error_len().unwrap_or(1);
+                        let drain_len = invalid_len.min(utf8_buf.len());
+                        utf8_buf.drain(..drain_len);
                         saw_done = self.push_sse_str("\u{FFFD}").await;
                         if saw_done {
                             utf8_buf.clear();
